@@ -79,6 +79,54 @@ UNITS = {
             "fn date_to_days_since_epoch(year: i32, month: u32, day: u32) -> i32",
         ],
     },
+    "budget": {
+        "src": "src/memory/budget.rs",
+        "anchors": [
+            "pub fn with_limit(limit: usize) -> Self",
+            "pub fn total_used(&self) -> usize",
+            "pub fn shared_available(&self) -> usize",
+            "pub fn allocate(&self, pool: Pool, bytes: usize) -> Result<()>",
+            "pub fn release(&self, pool: Pool, bytes: usize)",
+        ],
+    },
+    "agg_state": {
+        "src": "src/sql/state.rs",
+        "anchors": [
+            "pub(crate) fn new() -> Self",
+            "pub(crate) fn update(&mut self, func: &AggregateFunction, row: &ExecutorRow)",
+            "pub(crate) fn finalize(&self, func: &AggregateFunction) -> Value<'static>",
+        ],
+    },
+    "sort_cmp": {
+        "src": "src/sql/executor.rs",
+        "anchors": [
+            "fn compare_values(a: &Value, b: &Value) -> std::cmp::Ordering",
+            "pub fn new(child: E, limit: Option<u64>, offset: Option<u64>) -> Self",
+            "fn next(&mut self) -> Result<Option<ExecutorRow<'a>>>",
+        ],
+    },
+    "value_cmp": {
+        "src": "src/types/value.rs",
+        "anchors": [
+            "pub fn compare(&self, other: &Value) -> Option<Ordering>",
+            "pub fn compare_for_sort(&self, other: &Value) -> Ordering",
+        ],
+    },
+    "owned_cmp": {
+        "src": "src/database/query/helpers.rs",
+        "anchors": ["pub fn compare_owned_values(a: &OwnedValue, b: &OwnedValue) -> Ordering"],
+    },
+    "predicate": {
+        "src": "src/sql/predicate.rs",
+        "anchors": [
+            "fn eval_expr(&self, expr: &crate::sql::ast::Expr<'a>, row: &ExecutorRow<'a>) -> bool",
+            "fn eval_unary_op(",
+            "fn eval_binary_op(",
+            "fn value_to_bool(&self, val: &Value<'a>) -> bool",
+            "fn eval_arithmetic_op<F, G>(",
+            "fn compare_values(",
+        ],
+    },
 }
 
 PROPS = {
@@ -116,6 +164,47 @@ PROPS = {
         "level_note": "Trusted: Kani/CBMC (kissat for the partitioned inverse). The induction over days from the anchor is a meta-argument stated in contracts/kani/_calendar_oracle.rs. Not covered: string splitting/number parsing in parse_date/parse_time/parse_timestamp, canonical rendering, the inline JDN arithmetic in CompiledPredicate::parse_date.",
         "technique": "Kani full-domain Hoare triples (anchor + successor induction step) on the real calendar kernels; year loop closed by unwind bound derived from the precondition",
         "kani_units": ["datetime", "constraints", "literal"],
+        "explanation": "",
+    },
+    "C39": {
+        "level": "proof",
+        "level_text": "Proof of the SEQUENTIAL refinement only: for an arbitrary counter state with sum(pools) <= limit, allocate either fails leaving all five counters unchanged or adds `bytes` to exactly the named pool and keeps the sum <= limit; release subtracts (saturating) from exactly the named pool; allocate+release restores the state. By induction from with_limit this covers every single-threaded history. The property's quantifier over INTERLEAVINGS is not decided: the check-then-CAS on the per-pool counter is a cross-pool race no sequential contract can see.",
+        "level_note": "Partial: schedules not covered (Kani has no threads; Verus would need the code ported to its atomic/permission types, i.e. a model). Assumes compare_exchange_weak never fails spuriously (Kani models it as strong); sizes <= isize::MAX (Rust allocation bound) so counter sums cannot overflow.",
+        "technique": "Kani inductive step contracts over an arbitrary state satisfying the invariant (sequential refinement)",
+        "kani_units": ["budget"],
+        "explanation": "",
+        "assumptions": ["compare_exchange_weak modelled without spurious failure; single thread", "bytes <= isize::MAX and limit <= isize::MAX (precondition: Rust allocation-size bound)"],
+    },
+    "C16": {
+        "level": "proof",
+        "level_text": "Proof (inductive) for the accumulator only: AggregateState::new establishes, and update preserves for an arbitrary state and an arbitrary next INTEGER-or-NULL cell, an invariant tying the real fields to a ghost summary (rows, non-NULL count, exact sum, min, max); finalize returns COUNT(*)/SUM/AVG/MIN/MAX as SQL defines from that summary (NULLs ignored, empty -> NULL for AVG/MIN/MAX). Float MIN/MAX step contract. By induction this covers every input sequence of every length. Grouping (one row per key, NULL keys), HAVING, COUNT(expr) vs COUNT(*) dispatch and the planner are NOT covered (partial).",
+        "level_note": "Partial. Three open known findings (empty SUM = 0, integer SUM overflow wraps/panics, mixed Int/Float column). Float SUM/AVG not claimed (rounding). HashAggregateExecutor, HAVING and the second aggregate path in database.rs are outside every obligation.",
+        "technique": "Kani inductive invariant + per-operation step contracts against a ghost summary (arbitrary state satisfying the invariant)",
+        "kani_units": ["agg_state"],
+        "explanation": "",
+    },
+    "C15": {
+        "level": "proof",
+        "level_text": "Proof for the three sort comparators (SortExecutor::compare_values, Value::compare_for_sort, compare_owned_values) over all Int/Float/NULL (and Bool/Date/Time/Timestamp) key values of one type per key: NULL before every non-NULL value, numeric order inside a type, antisymmetric and transitive (a total preorder, the precondition under which sort_by yields the ORDER BY order). Inductive step contract of LimitExecutor::next over an arbitrary executor state: the emitted sequence is exactly rows [offset, offset+limit). Partial: DISTINCT, sort direction at the call-site closures, Text/Blob keys (delegated to Ord for str/[u8]), the inline Limit arm of DynamicExecutor and the sort driver are not covered.",
+        "level_note": "Partial. Open known findings: mixed Int/Float sort keys (SortExecutor returns Equal; `as f64` coercion is not transitive above 2^53). Trusted: slice::sort_by sorts correctly given a total preorder; str/[u8] Ord.",
+        "technique": "Kani full-domain Hoare triples on the real comparators (order axioms) + inductive step contract for LimitExecutor::next against a harness-side child executor",
+        "kani_units": ["sort_cmp", "value_cmp", "owned_cmp"],
+        "explanation": "",
+    },
+    "C14": {
+        "level": "proof",
+        "level_text": "Proof for the value-level kernels of the WHERE evaluator (CompiledPredicate::compare_values, eval_binary_op AND/OR, eval_unary_op NOT): for every Int/Float/NULL operand pair and all six comparison operators the kernel answers true iff the comparison is TRUE under SQL three-valued logic; AND/OR/NOT results are TRUE exactly when Kleene logic says TRUE. Expression-tree evaluation (eval_expr) only as a bounded stand-in over literal trees. Partial: IN lists, BETWEEN, LIKE, text comparison, column lookup, the optimizer's pushdown and which evaluator a query uses are not covered.",
+        "level_note": "Partial. Open known findings: NULL = NULL is TRUE; AND/OR return 0 instead of NULL for UNKNOWN; eval_expr has no NOT arm (answers true). Int/Float comparison uses the engine's `as f64` coercion (exact comparison above 2^53 is not demanded). Trusted: CompiledPredicate::new as compiled by Kani (hashbrown map construction), never dropped.",
+        "technique": "Kani full-domain Hoare triples on the real comparison/connective kernels against literal Kleene truth tables; bounded enumeration of literal expression trees for eval_expr",
+        "kani_units": ["predicate"],
+        "explanation": "",
+    },
+    "C20": {
+        "level": "proof",
+        "level_text": "Proof for the calendar kernels of the date functions (shared with C41: date_to_days / days_to_date / day_of_week / day_of_year / leap and month-length rules follow the proleptic Gregorian calendar for every date of years 1..9999) and for integer arithmetic in the expression evaluator (CompiledPredicate::eval_binary_op +,-,*,/,%,<<,>> and unary minus over all i64 pairs: exact result when representable, NULL on division by zero, NULL in => NULL out). Partial: string functions, floating-point functions, CAST, control flow and text rendering are not covered.",
+        "level_note": "Partial. Open known finding: integer overflow (a+b, a-b, a*b, i64::MIN / -1, i64::MIN % -1, pow) panics in debug builds / wraps in release instead of reporting an error. str-level reasoning is outside both back ends.",
+        "technique": "Kani full-domain Hoare triples on the real arithmetic and calendar kernels",
+        "kani_units": ["predicate", "datetime"],
         "explanation": "",
     },
 }
